@@ -495,6 +495,39 @@ pub fn options(args: &[String]) {
         }
         out("op", case, &c, "subsets", key, &why, "");
     }
+    observer_presence();
+}
+
+/// the low-level solvers with and without an observer: status and every counter must agree (C12 at the solver level)
+fn observer_presence() {
+    for method in ALL_METHODS {
+        for (kind, x0, xend) in [(Kind::Harmonic, 0.0, 2.0), (Kind::Logistic, 0.0, -1.5), (Kind::VdP, 0.5, 2.5)] {
+            let run = |with: bool| {
+                let p = Prob::new(kind);
+                let y0 = p.y0();
+                let mut rec = Recorder::new();
+                rec.thetas = vec![];
+                let (rt, at): (ivp::methods::Tolerance, ivp::methods::Tolerance) = (1e-5.into(), 1e-8.into());
+                let so = if with { Some(&mut rec) } else { None };
+                let r = match method {
+                    Method::RK4 => RK4::builder().build().solve(&p, x0, &y0, xend, (xend - x0) / 40.0, so),
+                    Method::RK23 => RK23::builder().build().solve(&p, x0, &y0, xend, rt, at, so),
+                    Method::DOPRI5 => DOPRI5::builder().build().solve(&p, x0, &y0, xend, rt, at, so),
+                    Method::DOP853 => DOP853::builder().build().solve(&p, x0, &y0, xend, rt, at, so),
+                    Method::RADAU => RADAU::builder().mass_storage(MatrixStorage::Identity).build().solve(&p, x0, &y0, xend, rt, at, so),
+                    Method::BDF => BDF::builder().build().solve(&p, x0, &y0, xend, rt, at, so),
+                };
+                r.map(|r| (format!("{:?}", r.status), r.steps.total, r.steps.accepted, r.steps.rejected, r.evals.ode, p.count.get()))
+            };
+            let (a, b) = (run(true), run(false));
+            let why = match (&a, &b) {
+                (Ok(a), Ok(b)) => if a != b { format!("with an observer: (status, nstep, naccpt, nrejct, nfev, calls) = {:?}; without: {:?}", a, b) } else { String::new() },
+                _ => "run fails".to_string(),
+            };
+            println!("{{\"kind\":\"op\",\"case\":\"observer-presence\",\"problem\":\"{:?}\",\"method\":\"{}\",\"x0\":{},\"xend\":{},\"branch\":\"observer\",\"finding_key\":\"{}\",\"ok\":{},\"why\":{:?}}}",
+                kind, method_name(method), x0, xend, if why.is_empty() { "" } else { "c12-no-observer" }, why.is_empty(), why);
+        }
+    }
 }
 
 /// C11 (step limits, first step) + C19 (callback protocol) on the low-level solvers
